@@ -62,7 +62,20 @@ class C14(Prop):
     budgets = {"quick": 200, "thorough": 4000}
 
     def cases(self, rng: random.Random, tier: str) -> Iterable[dict]:
+        forced = 2
         while True:
+            if forced or rng.random() < 0.04:
+                forced = max(0, forced - 1)
+                # a handler that answers a multi-output interrupt with a dict it KEEPS, on a graph that is run twice: equal runs, equal results
+                outs = ["p", "q", "r"][: rng.choice([2, 3])]
+                nodes = [{"name": "ask", "kind": "interrupt", "params": [["x", None]], "dataOuts": outs, "body": {"b": "handlerDict", "k": rng.randint(1, 5)},
+                          "emits": ["done"] if rng.random() < 0.8 else [], "asyncHandler": rng.random() < 0.5},
+                         {"name": "use", "kind": "fn", "params": [[outs[0], None]], "dataOuts": ["u"], "body": {"b": "tag", "t": "use"}}]
+                if nodes[0]["emits"]:
+                    nodes.append({"name": "audit", "kind": "fn", "params": [["x", None]], "dataOuts": ["aud"], "body": {"b": "tag", "t": "audit"}, "waitFor": ["done"]})
+                yield {"kind": "repeat", "program": [{"name": "g0", "nodes": nodes, "bound": []}], "values": [["x", rng.randint(0, 3)]], "nested": False,
+                       "seed": rng.randint(0, 10**6), "responses": [1], "cfg": {}}
+                continue
             if rng.random() < 0.8:
                 c = gen.gen_interrupt(rng)
                 c["nested"] = False
@@ -108,6 +121,16 @@ class C14(Prop):
         return {"rounds": rounds, "answers": answers, "final_values": values}
 
     def impl(self, case: dict) -> Any:
+        if case.get("kind") == "repeat":
+            from .. import build
+            from ..build import Env
+
+            env = Env()
+            graphs = build.build_program(case["program"], env, async_bodies=True)
+            rounds = [impl.run_case(case["program"], None, case["values"], {}, "async", graphs=graphs, env=env,
+                                    ctl=sched.Controller("random", case["seed"] + j)) for j in range(3)]
+            return {"rounds": rounds, "answers": {}, "final_values": case["values"], "auto": rounds[0], "repeat": True}
+
         def run(program: list[dict], values: list, i: int) -> dict:
             ctl = sched.Controller("random", case["seed"] + i)
             return impl.run_case(program, None, values, case.get("cfg", {}), "async", ctl=ctl)
@@ -126,6 +149,14 @@ class C14(Prop):
 
     def oracle(self, case: dict, obs: Any) -> str | None:
         rounds = obs["rounds"]
+        if case.get("kind") == "repeat":
+            first = (rounds[0]["status"], rounds[0]["values"], rounds[0]["error"])
+            if rounds[0]["status"] != "completed":
+                return f"a handler answering with a dict of all outputs did not pass the interrupt: {first}"
+            for j, o in enumerate(rounds[1:], 1):
+                if (o["status"], o["values"], o["error"]) != first:
+                    return f"the same graph run again with equal inputs: run 0 gave {first}, run {j} gave {(o['status'], o['values'], o['error'])}"
+            return None
         if rounds[0]["status"] == "build-error":
             return f"valid program rejected: {rounds[0].get('detail')}"
         ints = interrupts_of(case["program"])
@@ -197,6 +228,9 @@ class C14(Prop):
 
     # ---------------------------------------------------------------- model
     def model(self, case: dict, driver: Any) -> Any:
+        if case.get("kind") == "repeat":
+            return None
+
         def run(program: list[dict], values: list, i: int) -> dict:
             m = impl.model_obs(driver.ask({"op": "run", "program": program, "values": values, "runner": "async", "cfg": case.get("cfg", {})}))
             if m["pause"] is not None:
@@ -210,6 +244,8 @@ class C14(Prop):
         return self._history(case, run)
 
     def compare(self, case: dict, i: Any, m: Any) -> str | None:
+        if case.get("kind") == "repeat":
+            return None      # a handler returning a dict is outside the body language of the model: the oracle judges
         if len(i["rounds"]) != len(m["rounds"]):
             return f"history length: impl={len(i['rounds'])} model={len(m['rounds'])}"
         for k, (a, b) in enumerate(zip(i["rounds"], m["rounds"])):
@@ -226,7 +262,7 @@ class C14(Prop):
         return None
 
     def nontrivial(self, case: dict, obs: Any) -> bool:
-        return any(o["status"] == "paused" for o in obs["rounds"])
+        return case.get("kind") == "repeat" or any(o["status"] == "paused" for o in obs["rounds"])
 
     def features(self, case: dict, obs: Any) -> dict:
         return {"nested": case["nested"], "rounds": len(obs["rounds"]), "pauses": sum(1 for o in obs["rounds"] if o["status"] == "paused"),
